@@ -48,7 +48,7 @@ PROPS = {
     "C14": dict(http="C14h", http_cases=dict(quick=18, thorough=120), modules=["PolytuneModel.Thm.C14net", "PolytuneModel.Thm.C14", "PolytuneModel.Thm.Sites", "PolytuneModel.Thm.C14http"], theorems=["PolytuneModel.Http.C14_http_registered_until_finished", "PolytuneModel.Http.C14_http_never_404_while_alive", "PolytuneModel.Http.serve_unknown", "PolytuneModel.Http.C14_http_cex_unregister_on_error", "PolytuneModel.Server.C14_cex_stray_consts", "PolytuneModel.Server.C14_stray_consts_refused", "PolytuneModel.Server.C14_n2_stray_net", "PolytuneModel.Server.C14_n2_stray_explored", "PolytuneModel.Server.C14_cex_stray_net", "PolytuneModel.C14_reply_sites_present", "PolytuneModel.Server.C14_no_disturb", "PolytuneModel.Server.C14_msg_no_panic", "PolytuneModel.Server.C14_cex_msg_oob", "PolytuneModel.Server.C14_cex_dup_schedule", "PolytuneModel.Server.C14_cex_illtyped_dup"], server="C14", cases=dict(quick=40, thorough=300), rule="one stray / malformed command injected at a seeded point of a normal run; distinct by (command, point, n)"),
     "C15": dict(http="C15h", http_cases=dict(quick=12, thorough=60), modules=["PolytuneModel.Thm.C15", "PolytuneModel.Thm.C14http"], theorems=["PolytuneModel.Http.finish_self", "PolytuneModel.Http.finish_other", "PolytuneModel.Cancel.C15_current_all_schedules", "PolytuneModel.Cancel.C15_current_sound", "PolytuneModel.Cancel.C15_current_at_most_one", "PolytuneModel.Cancel.C15_current_live", "PolytuneModel.Cancel.C15_fixpoint", "PolytuneModel.Cancel.C15_cex_notify_self", "PolytuneModel.Cancel.C15_cex_pinned_stuck"], server="C15", cases=dict(quick=60, thorough=400), rule="cancel injected at quiescence after k deliveries or a few yields after a delivery; distinct by (point, victim, n, leader)"),
     "C16": dict(modules=["PolytuneModel.Thm.C14", "PolytuneModel.Thm.Sites", "PolytuneModel.Thm.C16net", "PolytuneModel.Thm.C16general", "PolytuneModel.Thm.C16live"], theorems=["PolytuneModel.Server.C16_general_mismatch_ends", "PolytuneModel.Server.deliver_inv2", "PolytuneModel.Server.reach_inv", "PolytuneModel.Server.C16_general_mismatch_net", "PolytuneModel.Server.C16_general_mismatch_program", "PolytuneModel.Server.deliver_inv", "PolytuneModel.Server.initNetBad_inv", "PolytuneModel.Server.C16_n2_mismatch_net", "PolytuneModel.Server.C16_n2_both_orders_explored", "PolytuneModel.C16_reply_sites_present", "PolytuneModel.Server.C16_mismatch_after_schedule", "PolytuneModel.Server.C16_mismatch_before_schedule", "PolytuneModel.Server.C16_illtyped"], server="C16", cases=dict(quick=24, thorough=200), rule="program / leader mismatch or ill-typed program at one follower, both arrival orders; distinct by (kind, n, leader, follower, order)"),
-    "C17": dict(http="C17h", http_cases=dict(quick=6, thorough=24), modules=["PolytuneModel.Thm.C17compile", "PolytuneModel.Thm.C14", "PolytuneModel.Thm.C17", "PolytuneModel.Thm.C17net"], theorems=["PolytuneModel.Server.C17_n2_compile_error_ok", "PolytuneModel.Server.C17_n2_compile_error_explored", "PolytuneModel.Sem.C17_bound", "PolytuneModel.Sem.C17_all_released", "PolytuneModel.Server.C17_n2_failure_ok", "PolytuneModel.Server.C17_n2_failures_explored", "PolytuneModel.Server.C17_cex_run_fail_net", "PolytuneModel.Server.C17_cex_consts_fail_net", "PolytuneModel.Server.C17_cex_run_fail_no_output"], server=["C17", "C15"], cases=dict(quick=22, thorough=120), rule="deterministic corpus (RPC kind x leader x destinations) then seeded: first validate / run / consts RPC fails, the CALLER must end, be notified and give its permit back; batches of 2..8 policies sharing the hosts' semaphores with concurrency 1..3: permit holders per host never exceed the concurrency, budget restored; distinct by (rpc, n, leader, destinations) / batch shape"),
+    "C17": dict(http="C17h", http_cases=dict(quick=6, thorough=24), modules=["PolytuneModel.Thm.C17compile", "PolytuneModel.Thm.C14", "PolytuneModel.Thm.C17", "PolytuneModel.Thm.C17net"], theorems=["PolytuneModel.Server.C17_n2_compile_error_ok", "PolytuneModel.Server.C17_n2_compile_error_explored", "PolytuneModel.Sem.C17_bound", "PolytuneModel.Sem.C17_all_released", "PolytuneModel.Server.C17_n2_failure_ok", "PolytuneModel.Server.C17_n2_failures_explored", "PolytuneModel.Server.C17_cex_run_fail_net", "PolytuneModel.Server.C17_cex_consts_fail_net", "PolytuneModel.Server.C17_cex_run_fail_no_output"], server=["C17", "C15"], cases=dict(quick=28, thorough=120), rule="deterministic corpus (RPC kind x leader x destinations) then seeded: first validate / run / consts RPC fails, the CALLER must end, be notified and give its permit back; batches of 2..8 policies sharing the hosts' semaphores with concurrency 1..3: permit holders per host never exceed the concurrency, budget restored; distinct by (rpc, n, leader, destinations) / batch shape"),
     "C18": dict(modules=["PolytuneModel.Thm.C18", "PolytuneModel.Thm.Sites", "PolytuneModel.Thm.C18gen"], theorems=["PolytuneModel.Gen_validateArgs_eq", "PolytuneModel.C18_gen_reject_peval", "PolytuneModel.C18_gen_reject_pout_repeats", "PolytuneModel.C18_gen_accepted_ok", "PolytuneModel.C18_guard_sites_present", "PolytuneModel.validateArgs_ok_iff", "PolytuneModel.C18_reject_own_index", "PolytuneModel.C18_reject_peval", "PolytuneModel.C18_reject_pout_index", "PolytuneModel.C18_reject_input_len", "PolytuneModel.C18_reject_invalid_circuit", "PolytuneModel.C18_reject_empty_pout", "PolytuneModel.C18_reject_pout_repeats", "PolytuneModel.C18_accepted_pout_ok", "PolytuneModel.C18_input_after_gate_rejected"], drive="C18", cases=dict(quick=60, thorough=600),
                 rule="one invalid argument per single-party run (10 classes), repeated output indices (all parties), validate-ok-but-not-wf circuits (5 classes); distinct by (class, circuit, indices)"),
     "C19": dict(modules=["PolytuneModel.Thm.C19", "PolytuneModel.Thm.GenArith", "PolytuneModel.Thm.C19mpc"], theorems=["PolytuneModel.C19_mpc_use", "PolytuneModel.initLoop_spec", "PolytuneModel.chunkSizeIter_regular", "PolytuneModel.Buf.C19_refines", "PolytuneModel.Buf.C19_from_new", "PolytuneModel.chunksOf_flatten", "PolytuneModel.Gen_chunkSizeIter_eq"], drive="C19", also=["C19m"], cases=dict(quick=400, thorough=6000),
